@@ -290,9 +290,11 @@ def classify(woven, res):
                 owner = 'ghost:' + prim['file']
         owner = norm_owner(owner)
         clause = next((x for x in descr if not x['primary'] and x['kind'] in ('contract', 'ghost')), None)
-        kind = ('ensures' if 'postcondition' in msg else 'pre' if 'precondition' in msg else
+        kind = ('ensures' if ('postcondition' in msg or 'post-condition' in msg) else 'pre' if ('precondition' in msg or 'pre-condition' in msg) else
                 'invariant' if 'invariant' in msg else 'assert' if 'assert' in msg else
-                'overflow' if 'arithmetic' in msg else 'decreases' if 'decreases' in msg or 'termination' in msg else 'other')
+                'overflow' if ('arithmetic' in msg or 'division' in msg or 'bit shift' in msg) else
+                'decreases' if 'decreases' in msg or 'termination' in msg else
+                'safety' if re.search(r'index out of bounds|panic|unreachable|constructed value may fail', msg) else 'other')
         detail = (clause or prim or {}).get('text', '')[:80]
         failures.append({'obligation': f'{owner}#{kind}[{detail}]', 'owner': owner, 'kind': kind, 'message': msg,
                          'in_source': bool(prim and prim['kind'] == 'source'),
